@@ -37,9 +37,14 @@ func zzBuildSource(srcKind int, exact bool, npatPos, npatNeg int) *zzBuiltSketch
 		total := b.gp.total() + b.gn.total() + b.zero
 		if total > 0 {
 			st.AddToCount(total)
-			st.AddToSum(12.75)
-			st.Add(-3.5, 0)
-			st.Add(1e9, 0)
+			if unit {
+				st.AddToSum(12.75)
+				st.Add(-3.5, 0)
+				st.Add(1e9, 0)
+			} else {
+				// everything absorbed was one and the same value: minimum == maximum, sum 0
+				st.Add(0, 0)
+			}
 		}
 		b.e = &DDSketchWithExactSummaryStatistics{DDSketch: src, summaryStatistics: st}
 	}
@@ -88,6 +93,22 @@ func zzC07Impl(srcKind int, exact bool) {
 		st := src.e.summaryStatistics
 		zzvAssert("statistics-blocks", ref.hasCount == (st.Count() != 0) && (!ref.hasCount || ref.count == st.Count()) &&
 			(!ref.hasSum || ref.sum == st.Sum()) && (!ref.hasMin || ref.min == st.Min()) && (!ref.hasMax || ref.max == st.Max()))
+		// what a reader written from the documentation recovers (a statistic without a block keeps the value
+		// of an empty sketch: count 0, sum 0, minimum +Inf, maximum -Inf) is what the sketch reports
+		rc, rs, rmin, rmax := 0.0, 0.0, math.Inf(1), math.Inf(-1)
+		if ref.hasCount {
+			rc = ref.count
+		}
+		if ref.hasSum {
+			rs = ref.sum
+		}
+		if ref.hasMin {
+			rmin = ref.min
+		}
+		if ref.hasMax {
+			rmax = ref.max
+		}
+		zzvAssert("reference-reader-recovers-the-statistics", rc == st.Count() && rs == st.Sum() && rmin == st.Min() && rmax == st.Max())
 	} else {
 		zzvAssert("no-statistics-blocks", !ref.hasCount && !ref.hasSum && !ref.hasMin && !ref.hasMax)
 	}
